@@ -17,7 +17,8 @@ RULE = ("real conversions (NumPy route; SEG-Y route with heuristic / thorough / 
         "boundary and cuts inside writes, each in-place patch applied partly / wholly, footer prefix independent of the hash "
         "patch; plus byte truncations of the finished file (thorough: every length of small files) x every read path (samples, "
         "trace headers, tracefield arrays, text/binary file headers): the partial file must fail to open / the call must raise, "
-        "or return exactly what the complete file returns")
+        "or return exactly what the complete file returns"
+        "; K: Lean truncRaises verdict for every sample read on every crash state vs what the real call did")
 
 
 class WriteLog:
